@@ -43,7 +43,7 @@ def gen_case(rng, cfg, idx):
     steps = []
     n = rng.randint(4, 14)
     acts = ["backward", "view", "read", "nullgrad", "use", "inplace", "backward", "untracked", "useview", "readview", "backward_view", "inplace_view",
-            "use_advidx", "use_boolidx", "use_einsum", "use_as_value", "nullgrad_discview", "view", "backward"]
+            "use_advidx", "use_boolidx", "use_einsum", "use_as_value", "nullgrad_discview", "view", "backward", "inplace_dangview", "inplace_dangview"]
     for _ in range(n):
         steps.append(rng.choice(acts))
     return {"kind": "life", "steps": steps, "shape": [rng.randint(2, 3)] * rng.randint(1, 2), "kseed": rng.randrange(1 << 30)}
@@ -180,6 +180,8 @@ def run_life(case, cnt, viol, sets):
     x = mg.tensor(np.arange(1.0, 1.0 + int(np.prod(shape))).reshape(shape))
     conn = []           # connected views (x[0:1]) of the current epoch
     disc = []           # views severed by a backward pass
+    dang = []           # views that existed during a backward pass without taking part in it
+    rng_ = random.Random(case.get("kseed", 0))
     have = False        # reference state machine: does x hold a gradient?  (None = not judged until the next definite event)
     expected = None
     for i, s in enumerate(case["steps"]):
@@ -189,6 +191,7 @@ def run_life(case, cnt, viol, sets):
             w = np.arange(2.0, 2.0 + x.size).reshape(x.shape) * (i + 1)
             (x * w).sum().backward()
             have, expected = True, w
+            dang.extend(conn)    # views that did not take part: the backward pass released the leaf's view list, they dangle
             conn_after = []
         elif s == "backward_view":
             if not conn:
@@ -254,6 +257,26 @@ def run_life(case, cnt, viol, sets):
                              "msg": f"step {i}: in-place update through a view of a leaf (leaf holds a gradient: {have}) raised {type(e).__name__}: {e}"})
                 return 3
             have, expected = False, None
+            conn_after = conn
+        elif s == "inplace_dangview":
+            # an in-place update through a view that an earlier backward pass cut loose acts on that view alone: the leaf took no part,
+            # keeps its data and its gradient
+            if not dang:
+                continue
+            before = x.data.copy()
+            v = dang[rng_.randrange(len(dang))]
+            how = rng_.randrange(3)
+            if how == 0:
+                v *= 2.0
+            elif how == 1:
+                v[...] = 0.5
+            else:
+                v += mg.tensor(np.ones(v.shape))
+            del v
+            cnt["life_dangling_inplace"] = cnt.get("life_dangling_inplace", 0) + 1
+            if not np.array_equal(x.data, before):
+                viol.append({"monitor": "lifecycle", "mech": "dangling-view-write-reaches-leaf", "msg": f"step {i}: an in-place update through a released view changed the leaf's data"})
+                break
             conn_after = conn
         elif s == "untracked":
             with mg.no_autodiff:
